@@ -101,6 +101,12 @@ func propCfg(prop string) genCfg {
 		base.getErrW = 5
 		base.merges = 0.2
 		base.concerns = []int{0, 1, 2, 2}
+		// failed merger cycles (refusing operator) and failed rounds (transient
+		// I/O faults, also in partial compactions) are later steps like any
+		// other: an open snapshot must not notice them
+		base.bgRefuseW = 4
+		base.faults = "io-light"
+		base.partial = 0.15
 	case "C04":
 		base.backings = []string{"store", "store", "store", "direct"}
 		base.flags = []string{"storeEach", "finalReopen", "finalVerify"}
